@@ -108,10 +108,6 @@ func (rndb *RowNamespaceDataBlock) Populate(ctx context.Context, eds eds.Accesso
 
 func (rndb *RowNamespaceDataBlock) UnmarshalFn(root *share.AxisRoots) UnmarshalFn {
 	return func(cntrData, idData []byte) error {
-		if !rndb.Container.IsEmpty() {
-			return nil
-		}
-
 		rndid, err := shwap.RowNamespaceDataIDFromBinary(idData)
 		if err != nil {
 			return fmt.Errorf("unmarhaling RowNamespaceDataID: %w", err)
